@@ -304,3 +304,32 @@ pub fn ref_login(i: &LoginInput) -> srp::Login {
 pub fn hex(b: &[u8]) -> String {
     mc::util::hex(b)
 }
+
+/// Prime moduli that fit in 32 bytes (primality is re-checked by the Python cross-check in setup).
+pub fn moduli() -> Vec<(&'static str, refmodel::big::U)> {
+    use refmodel::big::U;
+    let p2 = |e: u32, sub: u64| {
+        // 2^e - sub
+        let mut b = vec![0u8; (e as usize) / 8 + 1];
+        b[(e as usize) / 8] = 1 << (e % 8);
+        U::from_le_bytes(&b).sub(&U::from_u64(sub))
+    };
+    vec![
+        ("builtin-N", srp::n_builtin()),
+        ("2^255-19", p2(255, 19)),
+        ("secp256k1-p", U::from_hex_be("fffffffffffffffffffffffffffffffffffffffffffffffffffffffefffffc2f")),
+        ("p256-p", U::from_hex_be("ffffffff00000001000000000000000000000000ffffffffffffffffffffffff")),
+        ("2^127-1", p2(127, 1)),
+        ("2^61-1", p2(61, 1)),
+        ("2^31-1", p2(31, 1)),
+        ("65537", U::from_u64(65537)),
+        ("65521", U::from_u64(65521)),
+        ("257", U::from_u64(257)),
+        ("251", U::from_u64(251)),
+        ("13", U::from_u64(13)),
+        ("11", U::from_u64(11)),
+        ("7", U::from_u64(7)),
+        ("5", U::from_u64(5)),
+        ("3", U::from_u64(3)),
+    ]
+}
